@@ -556,6 +556,71 @@ pub fn run(tier: Tier) -> i32 {
     for p in parts {
         rep.stats.merge(p);
     }
+    // (3c) nested blocks with SEVERAL conditions, some of them dotted keys that share their first
+    //      segment (two conditions can live in one member of the element), over objects and
+    //      arrays of objects: some element must satisfy the whole block
+    {
+        let inner_keys = ["a", "b", "a.a", "a.b", "b.a", "b.b"];
+        let mut bodies: Vec<String> = vec![];
+        for (i, k1) in inner_keys.iter().enumerate() {
+            for k2 in inner_keys.iter().skip(i + 1) {
+                for (l1, l2) in [(0usize, 1usize), (1, 0), (0, 2)] {
+                    if l1 < leaves.len() && l2 < leaves.len() {
+                        bodies.push(format!("{{{}: {}, {}: {}}}", k1, leaves[l1], k2, leaves[l2]));
+                    }
+                }
+            }
+        }
+        bodies.push(format!("{{a.a: {}, a.b: {}, b: {}}}", leaves[0], leaves[1], leaves[2]));
+        let jobs: Vec<(&str, &String)> = ["a", "b"].iter().flat_map(|c| bodies.iter().map(move |b| (*c, b))).collect();
+        let parts: Vec<Stats> = jobs
+            .par_iter()
+            .map(|(container, body)| {
+                let mut st = Stats::default();
+                let yaml = format!("detection:\n  A: {{{}: {}}}\n  condition: A\ntrue_positives: []\ntrue_negatives: []\n", container, body);
+                let (rule, rr) = match (eng::load(&yaml), refint::parse_rule(&yaml)) {
+                    (Ok(a), Some(b)) => (a, b),
+                    _ => {
+                        st.count("multi_condition_block_rules_rejected", 1);
+                        return st;
+                    }
+                };
+                let forms: Vec<(u8, tau_engine::Rule)> = [0u8, 0b1111, 0b0010, 0b1000]
+                    .iter()
+                    .filter_map(|sw| eng::optimise_with(&rule, *sw, &[]).ok().map(|x| (*sw, x.0)))
+                    .collect();
+                let mut t = false;
+                for d in &docs {
+                    let exp = refint::eval_rule(&rr, d);
+                    for (sw, o) in &forms {
+                        let v = eng::val3(o, d).unwrap_or(2);
+                        st.states += 1;
+                        st.transitions += 1;
+                        st.evaluations += 1;
+                        st.traces += 1;
+                        if v == 1 {
+                            t = true;
+                        }
+                        let ok = if v == 1 { exp & refint::T != 0 } else { v != 2 && exp != refint::T };
+                        if !ok {
+                            st.push_violation(Violation {
+                                signature: format!("nested-block-with-several-conditions:{}", if *sw == 0 { "differs-from-reference" } else { "optimised-form-differs-from-reference" }),
+                                witness: format!("{}: {} after optimise({}) on {} = {} ; reference {}", container, body, eng::sw_name(*sw), d.show(), eng::v3name(v), refint::set_name(exp)),
+                                replay: json!({"kind":"optimise","rule_yaml":yaml,"sw_bits":sw,"hash_order_choices":[],"document":crate::report::mobj_to_json(d)}),
+                            });
+                        }
+                    }
+                }
+                if t {
+                    st.nontrivial += 1;
+                }
+                st
+            })
+            .collect();
+        for p in parts {
+            rep.stats.merge(p);
+        }
+    }
     // (4) totality of find() on arbitrary key strings (no value oracle)
     let alpha = ["a", ".", "[", "]", "0", "1", "-", "+", " "];
     let maxlen = if th { 6 } else { 5 };
@@ -603,7 +668,7 @@ pub fn run(tier: Tier) -> i32 {
     rep.stats.count("arbitrary_keys", keys.len() as u64);
     rep.stats.sample(json!({"path":"a.a.a","document":"{a: {}}","reference":"missing"}));
     rep.stats.sample(json!({"path":"a[1].b","document":docs.last().map(|d| d.show()),"reference":"per resolver"}));
-    rep.rule = "paths: every sequence of 1..N segments over keys {a,b} each with optional index [0..2]; documents: every tree D ::= leaf | {} | {a:D} | {b:D} | {a:D,b:D} | [] | [D] | [D,D] up to the depth/node bound with unique string leaves; full product on 5 representations (hand-written Object, serde_yaml Mapping, serde_json Map, HashMap of std types, &dyn Object) against the reference resolver (identity of the addressed value); the same through Rule::matches with `path: leaf` for every leaf; nested-mapping form vs dotted form vs reference; a nested block as one cell of a row in a sequence of mappings under all 16 switch sets vs reference; totality on every key string over {a . [ ] 0 1 - + space} up to the length bound. non-trivial = document has both resolving and non-resolving paths".into();
+    rep.rule = "paths: every sequence of 1..N segments over keys {a,b} each with optional index [0..2]; documents: every tree D ::= leaf | {} | {a:D} | {b:D} | {a:D,b:D} | [] | [D] | [D,D] up to the depth/node bound with unique string leaves; full product on 5 representations (hand-written Object, serde_yaml Mapping, serde_json Map, HashMap of std types, &dyn Object) against the reference resolver (identity of the addressed value); the same through Rule::matches with `path: leaf` for every leaf; nested-mapping form vs dotted form vs reference; nested blocks with several conditions incl. dotted keys sharing a first segment vs reference; a nested block as one cell of a row in a sequence of mappings under all 16 switch sets vs reference; totality on every key string over {a . [ ] 0 1 - + space} up to the length bound. non-trivial = document has both resolving and non-resolving paths".into();
     rep.assumptions = vec!["malformed index syntax (a[0][1], a[x]) has no value oracle, only totality".into()];
     rep.finish()
 }
